@@ -88,24 +88,24 @@ def run_sub(argv, cwd, timeout=60):
 
 def escaped_key(exc, scenario, content=None):
     s = repr(exc) + str(exc)
+    from islamon import patches
+    if "not_implemented_failure" in s:
+        return KF_NIF
+    if scenario in ("repair", "mutate") and patches.is_returns_drift(exc):
+        return KF_DRIFT
+    if scenario in ("repair", "mutate"):
+        from islamon.worker import exc_site
+        return f"C19:{scenario}:" + ":".join(exc_site(exc)) + "-escapes"
     if content is not None:
         try:
             json.loads(content)
             scenario = "json-parsable-member"   # e.g. the word "12" is read as JSON before it is parsed as a word
         except Exception:
             pass
-    if "not_implemented_failure" in s:
-        return KF_NIF
     if scenario == "empty-file" and isinstance(exc, IndexError):
         return KF_EMPTY
     if (scenario.startswith("json-") or scenario == "json-parsable-member") and isinstance(exc, (TypeError, ValueError, KeyError, AssertionError, IndexError, AttributeError)):
         return KF_JSON
-    from islamon import patches
-    if scenario in ("repair", "mutate") and patches.is_returns_drift(exc):
-        return KF_DRIFT
-    if scenario in ("repair", "mutate"):
-        from islamon.worker import exc_site
-        return f"C19:{scenario}:" + ":".join(exc_site(exc)) + "-escapes"
     return None
 
 
